@@ -3,7 +3,7 @@ from . import gen
 from .runner import run_scenario
 from .util import digest
 
-BUDGET = {'quick': 40.0, 'thorough': 600.0}
+BUDGET = {'quick': 60.0, 'thorough': 600.0}
 BUDGET_SCALE = {}
 
 LEVEL = {
